@@ -30,7 +30,8 @@ ValueClause(e, e2) ==
 \* the statement's clauses for an observed round trip
 \*   parsed: [r |-> "ok", e |-> tree] | [r |-> "err", ...];  s1, s2: first / second printed form
 RoundTripClauses(e, parsed, sameText) ==
-    IF parsed.r = "err" THEN << "parse-error" >>
+    IF parsed.r = "noprint" THEN << "print-raises" >>   \* the printer itself raised: there is no text
+    ELSE IF parsed.r = "err" THEN << "parse-error" >>
     ELSE IF parsed.r # "ok" THEN << "SKIP" >>
     ELSE (IF Norm(parsed.e) # Norm(e) THEN << "tree" >> ELSE << >>)
       \o (IF ~sameText THEN << "text" >> ELSE << >>)
